@@ -75,6 +75,9 @@ pub enum Op {
     InDeployForKnownToken { tok: u8, origin: u8 },
     /// the owner upgrades the token service and completes the migration: registry, trusted chains and custody are carried over
     UpgradeAndMigrate,
+    /// anybody registers a token the service deployed itself as a canonical token (a second id for the same contract;
+    /// whatever the service answers, transfers under the first id must go on burning and minting)
+    RegisterDeployedAsCanonical { slot: u8 },
 }
 
 #[derive(Clone, Debug, Serialize, Deserialize)]
@@ -118,6 +121,7 @@ fn op() -> impl Strategy<Value = Op> {
         1 => (0u8..NU as u8, 0u8..5, 0u8..3, any::<bool>()).prop_map(|(user, tok, chain, space)| Op::OutLookalikeChain { user, tok, chain, space }),
         1 => (0u8..5, 0u8..3).prop_map(|(tok, origin)| Op::InDeployForKnownToken { tok, origin }),
         1 => Just(Op::UpgradeAndMigrate),
+        1 => (0u8..2).prop_map(|slot| Op::RegisterDeployedAsCanonical { slot }),
     ]
 }
 
@@ -294,6 +298,14 @@ impl Property for C05 {
                     let id = w.its.client.register_canonical_token(&assets[s]).to_array();
                     bal[2 + s] = asset_bal[s];
                     toks[2 + s] = Some(Tok { id, addr: assets[s].clone(), native: false, minter: None });
+                }
+                Op::RegisterDeployedAsCanonical { slot } => {
+                    if let Some(t) = &toks[*slot as usize % 2] {
+                        let r = w.its.client.try_register_canonical_token(&t.addr);
+                        cx.count("either");
+                        cx.label(if matches!(r, Ok(Ok(_))) { "deployed_token_also_registered_as_canonical" } else { "deployed_token_refused_as_canonical" });
+                        nontrivial = true;
+                    }
                 }
                 Op::MinterMint { slot, to, amount } => {
                     let s = *slot as usize % 2;
